@@ -177,3 +177,74 @@ Print Assumptions C11_late_reset_refuted.
 Example C11_seq_nonvacuous :
   map (fun r => match r with Ok (Some _) => 1%N | Ok None => 0%N | _ => 2%N end) (fst (regcomp_seq bad_then_good true)) = [0%N; 1%N].
 Proof. exact entry_reset_example. Qed.
+
+(* ---- the leaf functions of the model are the C text of /repo/regex.c (translation tie, coq/TrRegex.v) ----------------
+   tools/c2clite.py prints regex.c's private uc_len, uc_dec, uc_beg, isword and brk_len as CLite terms (GenCFuncs.v:
+   F_re_uc_len, F_re_uc_dec, F_re_uc_beg, F_re_isword, F_brk_len; semantics with checked loads in CLite.v).  For EVERY
+   memory that holds a string s (bytes < 256) followed by its terminator in block b, and EVERY offset o <= |s|, running the
+   translated function returns the value of the hand-written model and leaves the memory unchanged -- in particular no
+   load leaves the block of the string (it would be the error EOob), no int operation overflows, no fuel runs out.
+   No hypothesis about complete multi-byte sequences: since fix 6b15ed7 the C text stops at the terminator.
+   (CLite is only Required, not Imported: its Ok / bind / do-notation would shadow ReSyntax's.) *)
+From NV Require CLite CLiteProps GenCFuncs TrRegex.
+
+Theorem C11_tr_re_uc_len : forall m b (s : bytes) o d fuel,
+  CLiteProps.str_at m b s -> CLiteProps.bytes_lt256 s -> o <= length s -> 4 <= fuel ->
+  CLite.callf GenCFuncs.cprog fuel (S d) GenCFuncs.F_re_uc_len [CLite.VPtr b (Z.of_nat o)] m
+  = CLite.Ok (CLite.VInt (Z.of_nat (ReSyntax.re_uclen_at s o)), m).
+Proof. exact TrRegex.tr_re_uc_len. Qed.
+Print Assumptions C11_tr_re_uc_len.
+
+(* uc_dec: the model's checked reads never leave the string (re_ucdec is Ok) and the C text returns the same code *)
+Theorem C11_tr_re_uc_dec : forall m b (s : bytes) o d fuel,
+  CLiteProps.str_at m b s -> CLiteProps.bytes_lt256 s -> o <= length s -> 4 <= fuel ->
+  exists v, ReVM.re_ucdec s o = ReSyntax.Ok v /\
+  CLite.callf GenCFuncs.cprog fuel (S (S d)) GenCFuncs.F_re_uc_dec [CLite.VPtr b (Z.of_nat o)] m
+  = CLite.Ok (CLite.VInt (Z.of_N v), m).
+Proof. exact TrRegex.tr_re_uc_dec. Qed.
+Print Assumptions C11_tr_re_uc_dec.
+
+(* uc_beg(beg, s) for any beg <= s inside the string; ReVM.uc_beg counts from beg *)
+Theorem C11_tr_re_uc_beg : forall m b (s : bytes) ob o d fuel,
+  CLiteProps.str_at m b s -> CLiteProps.bytes_lt256 s -> ob <= o <= length s -> length s < fuel ->
+  CLite.callf GenCFuncs.cprog fuel (S d) GenCFuncs.F_re_uc_beg [CLite.VPtr b (Z.of_nat ob); CLite.VPtr b (Z.of_nat o)] m
+  = CLite.Ok (CLite.VPtr b (Z.of_nat (ob + ReVM.uc_beg (skipn ob s) (o - ob))), m).
+Proof. exact TrRegex.tr_re_uc_beg. Qed.
+Print Assumptions C11_tr_re_uc_beg.
+
+Theorem C11_tr_re_isword : forall m b (s : bytes) o d fuel,
+  CLiteProps.str_at m b s -> CLiteProps.bytes_lt256 s -> o <= length s ->
+  CLite.callf GenCFuncs.cprog fuel (S d) GenCFuncs.F_re_isword [CLite.VPtr b (Z.of_nat o)] m
+  = CLite.Ok (CLite.VInt (CLite.b2z (ReVM.isword (nthb s o))), m).
+Proof. exact TrRegex.tr_re_isword. Qed.
+Print Assumptions C11_tr_re_isword.
+
+(* brk_len(p) is called with p[0] == '[': the pointer is inside the string (o < |s|; the C text reads p[1] unconditionally).
+   The string has no embedded NUL (it is a C string); its length fits an int. *)
+Theorem C11_tr_brk_len : forall m b (s : bytes) o d fuel,
+  CLiteProps.str_at m b s -> nonul s -> o < length s -> length s < fuel -> (Z.of_nat (length s) < 2147483647)%Z ->
+  CLite.callf GenCFuncs.cprog fuel (S d) GenCFuncs.F_brk_len [CLite.VPtr b (Z.of_nat o)] m
+  = CLite.Ok (CLite.VInt (Z.of_nat (ReParse.brk_len (skipn o s))), m).
+Proof. exact TrRegex.tr_brk_len. Qed.
+Print Assumptions C11_tr_brk_len.
+
+(* non-vacuity: the hypotheses hold for the pattern  [^]a[:alpha:]x]  followed by a TRUNCATED three-byte sequence (e2 82)
+   at the very end of the string, and the translated functions RUN on it (vm_compute of the CLite interpreter): brk_len = 15,
+   uc_len of the truncated sequence = 2 (cut at the terminator), uc_dec = 0x200000 | 0xe2, uc_beg from its continuation byte
+   = 15, isword('a') = 1; one load past the terminator is the error EOob *)
+Definition C11_tr_pat : bytes := [91; 94; 93; 97; 91; 58; 97; 108; 112; 104; 97; 58; 93; 120; 93; 226; 130]%N.
+Definition C11_tr_mem : CLite.mem := [CLite.cstr_block (CLiteProps.zb C11_tr_pat)].
+Example C11_tr_nonvacuous :
+  CLiteProps.str_at C11_tr_mem 0 C11_tr_pat /\ nonul C11_tr_pat /\
+  CLite.callf GenCFuncs.cprog 40 3 GenCFuncs.F_brk_len [CLite.VPtr 0 0] C11_tr_mem = CLite.Ok (CLite.VInt 15, C11_tr_mem) /\
+  ReParse.brk_len C11_tr_pat = 15 /\
+  CLite.callf GenCFuncs.cprog 40 3 GenCFuncs.F_re_uc_len [CLite.VPtr 0 15] C11_tr_mem = CLite.Ok (CLite.VInt 2, C11_tr_mem) /\
+  ReSyntax.re_uclen_at C11_tr_pat 15 = 2 /\
+  CLite.callf GenCFuncs.cprog 40 3 GenCFuncs.F_re_uc_dec [CLite.VPtr 0 15] C11_tr_mem = CLite.Ok (CLite.VInt 2097378, C11_tr_mem) /\
+  ReVM.re_ucdec C11_tr_pat 15 = ReSyntax.Ok 2097378%N /\
+  CLite.callf GenCFuncs.cprog 40 3 GenCFuncs.F_re_uc_beg [CLite.VPtr 0 0; CLite.VPtr 0 16] C11_tr_mem = CLite.Ok (CLite.VPtr 0 15, C11_tr_mem) /\
+  CLite.callf GenCFuncs.cprog 40 3 GenCFuncs.F_re_isword [CLite.VPtr 0 3] C11_tr_mem = CLite.Ok (CLite.VInt 1, C11_tr_mem) /\
+  CLite.callf GenCFuncs.cprog 40 3 GenCFuncs.F_re_uc_len [CLite.VPtr 0 18] C11_tr_mem = CLite.Err CLite.EOob.
+Proof.
+  split; [reflexivity|]. split; [repeat constructor|]. repeat split; vm_compute; reflexivity.
+Qed.
